@@ -47,7 +47,8 @@ def floors(tier):
 
 def gen_cases(tier, seed):
     n = 480 if tier == "quick" else 8000
-    return [{"kind": "uijson", "n_forms": 3, "first": "string", "empty": True} for _ in range(4)] + [{"kind": "uijson", "n_forms": 3 + i % 10, "first": FORMS[i % len(FORMS)]} for i in range(n)]
+    switches = [{"kind": "group-switch", "direction": dr, "dependency": dep, "entry": en} for dr in ("on", "off") for dep in (None, "on", "off") for en in ("set_data_value", "data")]
+    return switches + [{"kind": "uijson", "n_forms": 3, "first": "string", "empty": True} for _ in range(4)] + [{"kind": "uijson", "n_forms": 3 + i % 10, "first": FORMS[i % len(FORMS)]} for i in range(n)]
 
 
 def strict_loads(text):
@@ -192,9 +193,91 @@ def compare(rec, before, after, where, kinds, raw_empty=()):
         rec.check("C14.enabled", i0.get(k) == i1.get(k), op=where, cls="data_value", attr="isValue", detail=f"parameter {k!r}: isValue {i0.get(k)} before, {i1.get(k)} after")
 
 
+def run_group_switch(case, rec):
+    """A group whose switch is itself an optional parameter, with plain (non-optional) members, one of them also hanging on a
+    check box.  The file is written the way the application writes a collapsed / expanded group; then the group is switched
+    through the data interface, written and read: every member follows the switch, values included."""
+    from geoh5py.ui_json import templates
+    from geoh5py.ui_json.constants import default_ui_json
+    from geoh5py.ui_json.input_file import InputFile
+    from geoh5py.workspace import Workspace
+
+    d = tempfile.mkdtemp(prefix="gvm_")
+    turn_on = case["direction"] == "on"
+    where = f"group-switch:{case['direction']}:dep-{case['dependency']}:{case['entry']}"
+    try:
+        Workspace.create(os.path.join(d, "g.geoh5")).close()
+        ui = deepcopy(default_ui_json)
+        ui["title"] = "group switch"
+        ui["geoh5"] = os.path.join(d, "g.geoh5")
+        start = not turn_on
+        ui["switch"] = dict(templates.float_parameter(value=1.5, label="switch", optional="enabled" if start else "disabled"), group="G", groupOptional=True)
+        ui["lower"] = dict(templates.float_parameter(value=2.5, label="lower"), group="G", enabled=start)
+        ui["upper"] = dict(templates.integer_parameter(value=7, label="upper"), group="G", enabled=start)
+        if case["dependency"]:
+            ui["box"] = templates.bool_parameter(value=case["dependency"] == "on", label="box")
+            ui["upper"].update(dependency="box", dependencyType="enabled")
+            if case["dependency"] == "off":
+                ui["upper"]["enabled"] = False
+        try:
+            in_file = InputFile(ui_json=deepcopy(ui))
+            d0 = dict(in_file.data)
+        except Exception as exc:  # noqa: BLE001
+            if not exc_origin(exc)[0]:
+                raise
+            rec.fail("C14.value", op=where, cls="group", attr="ingest:" + type(exc).__name__, detail=f"a file with a {'collapsed' if not start else 'expanded'} optional group (members enabled={start}) is refused: {type(exc).__name__}: {short(str(exc), 160)}")
+            return
+        rec.see("group-switch-files")
+        exp0 = {"switch": 1.5 if start else None, "lower": 2.5 if start else None, "upper": (7 if case["dependency"] != "off" else None) if start else None}
+        for k, v in exp0.items():
+            rec.check("C14.value", d0.get(k) == v, op=where + ":loaded", cls="group", attr=k, detail=f"{k} loaded as {d0.get(k)!r}, the file says {v!r} (group {'on' if start else 'off'})")
+        new = {"switch": 4.25, "lower": 8.5, "upper": 3} if turn_on else {"switch": None}
+        try:
+            if case["entry"] == "data":
+                dd = dict(in_file.data)
+                dd.update(new)
+                in_file.data = dd
+            else:
+                for k, v in new.items():
+                    in_file.set_data_value(k, v)
+        except Exception as exc:  # noqa: BLE001
+            if not exc_origin(exc)[0]:
+                raise
+            rec.see("group-switch-edit-refused:" + type(exc).__name__)
+            rec.nontrivial = True
+            rec.shape = ["group-switch", case["direction"], case["dependency"], case["entry"], "refused"]
+            return
+        b = snapshot(in_file)
+        out = in_file.write_ui_json(name="switch.ui.json", path=d)
+        try:
+            again = InputFile.read_ui_json(out)
+            a = snapshot(again)
+        except Exception as exc:  # noqa: BLE001
+            if not exc_origin(exc)[0]:
+                raise
+            rec.fail("C14.value", op=where + ":read", cls="group", attr=type(exc).__name__, detail=f"the file written after switching the group {'on' if turn_on else 'off'} cannot be read back: {type(exc).__name__}: {short(str(exc), 160)}")
+            return
+        compare(rec, b, a, where, {"switch": "group", "lower": "group", "upper": "group", "box": "bool"})
+        if turn_on:
+            for k in ("switch", "lower") + (("upper",) if case["dependency"] != "off" else ()):
+                rec.check("C14.value", a[0].get(k) == new[k], op=where + ":read", cls="group", attr=k, detail=f"{k} was given {new[k]!r} while switching the group on; read back {a[0].get(k)!r}")
+        else:
+            for k in ("switch", "lower", "upper"):
+                rec.check("C14.value", a[0].get(k) is None, op=where + ":read", cls="group", attr=k, detail=f"group switched off: {k} read back {a[0].get(k)!r}")
+        rec.nontrivial = True
+        rec.shape = ["group-switch", case["direction"], case["dependency"], case["entry"]]
+        rec.sample = {"kind": "group-switch", "direction": case["direction"]}
+    finally:
+        shutil.rmtree(d, ignore_errors=True)
+        gc.collect()
+
+
 def run_case(case, rec):
     from geoh5py.ui_json.constants import default_ui_json
     from geoh5py.ui_json.input_file import InputFile
+
+    if case["kind"] == "group-switch":
+        return run_group_switch(case, rec)
 
     warnings.simplefilter("ignore")
     rng = random.Random(case["seed"])
